@@ -35,7 +35,7 @@ fn snap(a: &Array) -> Snap {
 }
 
 pub fn explore(opts: &Opts) -> Explored {
-    let pool: Vec<Vec<usize>> = vec![vec![1], vec![2], vec![2, 2], vec![1, 3], vec![2, 1, 2]];
+    let mut pool: Vec<Vec<usize>> = vec![vec![1], vec![2], vec![2, 2], vec![1, 3], vec![2, 1, 2]];
     let max_len = if opts.tier == Tier::Quick { 3 } else { 4 };
     let lrs: Vec<f64> = vec![0.0, 0.5, 2.0, -1.0];
     let var = opts.seed % 3;
@@ -52,9 +52,16 @@ pub fn explore(opts: &Opts) -> Explored {
             lists.push(t);
         }
     }
+    // large parameters (more values than any block size), alone and between small ones
+    pool.push(vec![13, 10]);
+    pool.push(vec![67]);
+    lists.push(vec![5]);
+    lists.push(vec![1, 5, 0]);
+    lists.push(vec![6, 5]);
+    lists.push(vec![5, 6, 2]);
     // a few long lists (a capacity or block size in the optimizer would only show here)
     for len in [9usize, 17, 33] {
-        lists.push((0..len).map(|k| (k * 2 + 1) % pool.len()).collect());
+        lists.push((0..len).map(|k| (k * 2 + 1) % 5).collect());
     }
     let local = par(opts, lists.len(), |i, l| {
         let list = &lists[i];
